@@ -131,6 +131,27 @@ func TestC17(t *testing.T) {
 			}
 			c.Ev.MarkExhaustive("min/max over every permutation of every subset of <= 4 of 5 distinct numbers, in list form and in single-array form")
 		})
+		c.Sub("pow-boundaries", func(s *Sub) {
+			if c.Shard != 0 {
+				return
+			}
+			bases := []string{"2", "10", "0.5", "0.1", "3", "1.5", "(-2)", "(-0.5)", "500", "1" + strings.Repeat("0", 308), "0." + strings.Repeat("0", 307) + "1", "0", "(-0)", "1", "(-1)", "(2 ** 1024)"}
+			exps := []string{"1074", "1073", "1075", "1023", "1024", "1022", "310", "308", "309", "323", "324", "115.5", "0.5", "1", "2", "3", "63", "64", "1000000"}
+			for _, a := range bases {
+				for _, e := range exps {
+					for _, sign := range []string{"", "-"} {
+						ex := e
+						if sign == "-" {
+							ex = "(-" + e + ")"
+						}
+						src := P + " " + bn.BPow + "(" + a + ", " + ex + ");\n" + P + " " + a + " ** " + ex + ";\n"
+						c.c17PowPair(s, src)
+						c.c17Program(s, "pow-boundaries", src, true, true, "pow-boundary")
+					}
+				}
+			}
+			c.Ev.MarkExhaustive(fmt.Sprintf("ঘাত(a, b) against a ** b for %d bases x %d exponents of both signs (overflow, underflow and subnormal results)", len(bases), len(exps)))
+		})
 		c.Sub("clock", func(s *Sub) {
 			if c.Shard != 0 {
 				return
